@@ -558,6 +558,24 @@ def m_C14(run):
         if cur == start and start in seen:
             f.append("undetected ask cycle through actor id %s at the end of the script: %s" % (start, sorted(edges.items())))
             break
+    # the same question asked of the operations themselves: asks made from hooks that are still
+    # pending at the end and wait on each other in a circle
+    pend = {}
+    for o, m in run.ops.items():
+        if m.get("hook") and m["kind"] == "ask" and m.get("hook_target") is not None and run.res(L, o) == "pending":
+            pend.setdefault(m["by"], set()).add(m["hook_target"])
+    for start in pend:
+        stack, seen = [start], set()
+        while stack:
+            cur = stack.pop()
+            for nxt in pend.get(cur, ()):
+                if nxt == start:
+                    f.append("actors wait on each other forever: pending asks %s form a cycle through actor %d and nobody panicked"
+                             % (sorted((k, sorted(v)) for k, v in pend.items()), start))
+                    return f
+                if nxt not in seen:
+                    seen.add(nxt)
+                    stack.append(nxt)
     return f
 
 
